@@ -90,7 +90,8 @@ PROPS["C16"] = dict(
 
 PROPS["C15"] = dict(
     harness="rc_catfilter",
-    builds=[dict(harness="rc_catfilter")],
+    builds=[dict(harness="rc_catfilter"), dict(kind="fn", fn=lambda: __import__("vfuzz").build_target("catdiff"))],
+    fuzz_extra=dict(target="catdiff", quick=dict(runs=120000), thorough=dict(secs=300, jobs=8)),
     engine="rc",
     level="exploration",
     quick=dict(cases=15000, shards=2, max_size=100, timeout=900),
@@ -163,7 +164,8 @@ PROPS["C18"] = dict(
 
 PROPS["C12"] = dict(
     harness="rc_pattern",
-    builds=[dict(harness="rc_pattern")],
+    builds=[dict(harness="rc_pattern"), dict(kind="fn", fn=lambda: __import__("vfuzz").build_target("patdiff"))],
+    fuzz_extra=dict(target="patdiff", quick=dict(runs=120000), thorough=dict(secs=300, jobs=8)),
     engine="rc",
     level="exploration",
     quick=dict(cases=15000, shards=2, max_size=100, timeout=900),
